@@ -605,6 +605,28 @@ static void gen_intervals(struct scen *sc, struct rng *r, long c)
 	}
 }
 
+/* a receive call is interrupted (TR_INTR) after exactly k delivered bytes of the first response, for every k: wherever
+ * the client is torn out of the stream, the response takes effect as sent or not at all.  All records are announced,
+ * among them the two whose IPv6 Prefix PDU carries the image of an IPv4 Prefix PDU 12 bytes in. */
+static void gen_intr(struct scen *sc, struct rng *r, long c)
+{
+	scen_defaults(sc, r);
+	sc->np = 12 + (int)rndn(r, 8);
+	sc->nk = 4;
+	sc->init_records = sc->np;
+	sc->announce_cap = sc->np;
+	sc->cfg.refresh = 30 + rndn(r, 30);
+	sc->cfg.retry = 1 + rndn(r, 5);
+	sc->cfg.expire = 600;
+	sc->cfg.chunk_rx = CH_MAX;
+	sc->cfg.chunk_tx = CH_MAX;
+	sc->cfg.intr_conn = 1;
+	sc->cfg.intr_at_byte = 1 + c % 640;
+	sc->cfg.others = rndp(r, 1, 2);
+	sc->cache_version = rndp(r, 1, 4) ? 0 : 1;
+	add_event(&sc->cfg, (time_t)sc->cfg.refresh + 5, 1, 3);
+}
+
 static void gen_reload(struct scen *sc, struct rng *r, long c)
 {
 	scen_defaults(sc, r);
@@ -1175,6 +1197,8 @@ int main(int argc, char **argv)
 			gen_intervals(&sc, &r, c);
 		else if (!strcmp(mode, "reload"))
 			gen_reload(&sc, &r, c);
+		else if (!strcmp(mode, "intr"))
+			gen_intr(&sc, &r, c);
 		else if (!strcmp(mode, "fuzz")) {
 			CNT("sim/scenarios");
 			run_fuzz_case(&r, c, seed);
